@@ -434,6 +434,31 @@ fn c08_ops(g: &mut Gen, thorough: bool) {
         f.push(if null { "1" } else { "0" }.into());
         f.push(pts(&q));
         g.push(f.join("\t"), &format!("oracle-oplist-{kind}"), true);
+        // the same operator over the same grids, on the model
+        {
+            let grids: Vec<(String, String, String)> = (0..k).map(|j| (format!("g{j}.grid"), "gravsoft".to_string(), f[3 + 2 * j].clone())).collect();
+            let names: Vec<String> = (0..k).map(|j| format!("g{j}.grid")).collect();
+            let mut def = match kind {
+                "deformation" => format!("deformation raw dt=1 grids={}", names.join(",")),
+                "deflection" => format!("deflection grids={}", names.join(",")),
+                _ => format!("gridshift grids={}", names.join(",")),
+            };
+            if null {
+                def += ",@null";
+            }
+            let data: Vec<[f64; 4]> = q
+                .iter()
+                .map(|p| match kind {
+                    "deformation" => { let (s, c) = p.1.sin_cos(); let (sl, cl) = p.0.sin_cos(); [6.38e6 * c * cl, 6.38e6 * c * sl, 6.36e6 * s, 2000.0] }
+                    "deflection" => [p.1.to_degrees(), p.0.to_degrees(), 10.0, 2000.0],
+                    _ => [p.0, p.1, 10.0, 2000.0],
+                })
+                .collect();
+            g.push(super::opg_line(&grids, &def, "apply", "F", &crate::wire::data_of(&data)), &format!("model-oplist-{kind}"), true);
+            if kind != "deflection" {
+                g.push(super::opg_line(&grids, &def, "apply", "I", &crate::wire::data_of(&data)), &format!("model-oplist-{kind}-inv"), true);
+            }
+        }
     }
     // operators on the shipped grids: conventions of sign, order and unit
     for def in [
@@ -443,6 +468,21 @@ fn c08_ops(g: &mut Gen, thorough: bool) {
         "gridshift grids=100800401.gsb",
     ] {
         g.push(format!("S_C08O\t{}", crate::wire::escape(def)), "oracle-operator", true);
+        // the same definition over the shipped files, on the model
+        if !def.contains("100800401") {
+            let u = std::f64::consts::PI / 180.0;
+            let geo: Vec<[f64; 4]> = (0..8).map(|_| [g.rng.uniform(7.0, 17.0) * u, g.rng.uniform(53.0, 59.0) * u, g.rng.uniform(0.0, 100.0), 2000.0 + g.rng.below(30) as f64]).collect();
+            let data: Vec<[f64; 4]> = if def.starts_with("deformation") {
+                geo.iter().map(|p| { let (s, c) = p[1].sin_cos(); let (sl, cl) = p[0].sin_cos(); [6.38e6 * c * cl, 6.38e6 * c * sl, 6.36e6 * s, p[3]] }).collect()
+            } else if def.starts_with("deflection") {
+                geo.iter().map(|p| [p[1].to_degrees(), p[0].to_degrees(), p[2], p[3]]).collect()
+            } else {
+                geo
+            };
+            for dir in ["F", "I"] {
+                g.push(super::opg_line(&super::shipped_grids_of(def), def, "apply", dir, &crate::wire::data_of(&data)), "model-operator", true);
+            }
+        }
     }
 }
 
